@@ -33,13 +33,37 @@ def generate(R, tier, focus):
         if not inner['obs'][0]['events'] and R.random() < 0.8:
             inner['obs'][0]['events'] = rngsim.gen_obs(R, inner, 12, allow_zero_rate_bins=False) or \
                 [gen.gen_event(R, inner['region'], inner['mags'], eid='o0')[0]]
+        if R.random() < 0.15:
+            # a lattice that starts at the origin (coordinates spanning several orders of magnitude) with observed
+            # events exactly on lower cell edges and one event at a much smaller coordinate: binning tolerances are
+            # per point, so the outcome must not depend on which event is stored first
+            nxe = R.randint(4, 8)
+            inner['region'] = {'kind': 'cart', 'dh': 0.1, 'holes': [], 'bbox': [0.0, 0.0, gen.dec(0.1 * nxe), 0.2],
+                               'origins': [[gen.dec(0.1 * i), gen.dec(0.1 * j)] for i in range(nxe) for j in range(2)]}
+            nm_ = len(inner['mags']['edges'])
+            inner['rates'] = [[10 ** R.uniform(-2, 1) for _ in range(nm_)] for _ in inner['region']['origins']]
+            evs = [['small', gen.T0_MS + 5000, 0.05, 0.05, 5.0, gen.mag_in_bin(R, inner['mags'], 0)]]
+            for k in range(R.randint(1, 4)):
+                i = R.randint(1, nxe - 1)
+                evs.append(['edge%d' % k, gen.T0_MS + 6000 + k, R.choice((0.05, 0.15, 0.1)), gen.dec(0.1 * i), 5.0,
+                            gen.mag_in_bin(R, inner['mags'], R.randrange(nm_))])
+            for k in range(R.randint(0, 3)):
+                evs.append(gen.gen_event(R, inner['region'], inner['mags'], eid='in%d' % k)[0])
+            R.shuffle(evs)
+            inner['obs'] = [{'events': evs, 'edge_world': True}]
         channel = R.choice(('events', 'cells', 'cells'))
+        if inner['obs'][0].get('edge_world'):
+            channel = 'events'
         # benchmark forecast for the paired T-test: independent positive rates (a benchmark proportional to the
         # forecast makes the variance of the log-ratios vanish and the t statistic ill-conditioned)
         inner['bench'] = [[10 ** R.uniform(-3, 1) for _ in row] for row in inner['rates']]
         nt = R.randint(1, 5)
         tests = [{'test': R.choice(GRID_TESTS), 'seed': R.choice((0, 1, 7, R.randint(2, 10 ** 6))), 'nsim': R.randint(1, 8)}
                  for _ in range(nt)]
+        if channel == 'cells' and gen.n_cells(inner['region']) > 1 and R.random() < 0.15:
+            # only the benchmark forecast of the paired T-test lists its cells (and rates) in another order
+            channel = 'bench_cells'
+            tests = [{'test': 'T', 'seed': 1, 'nsim': 1}]
     else:
         inner = fcsim.generate(R2, tier, 'C20')
         inner['ops'] = []
@@ -49,7 +73,7 @@ def generate(R, tier, focus):
             channel = 'catalogs'
         testable = [t for t in CAT_TESTS if len(inner['mags']['edges']) >= 2 or t in CAT_TESTS[:4]]
         nt = R.randint(1, 5)
-        tests = [{'test': R.choice(testable), 'seed': R.choice((1, 7, R.randint(2, 10 ** 6))), 'obs': R.randrange(len(inner['obs']))}
+        tests = [{'test': R.choice(testable), 'seed': R.choice((0, 1, 7, R.randint(2, 10 ** 6))), 'obs': R.randrange(len(inner['obs']))}
                  for _ in range(nt)]
     cart = inner['region']['kind'] == 'cart'
     extra = {
@@ -91,6 +115,12 @@ def permuted(scn):
             w['rates'] = [w['rates'][i] for i in perm]
         if 'bench' in w:
             w['bench'] = [w['bench'][i] for i in perm]
+        info['perm'] = perm
+    elif ch == 'bench_cells':
+        n = gen.n_cells(w['region'])
+        perm = list(range(n))
+        P.shuffle(perm)
+        w['bench_perm'] = perm
         info['perm'] = perm
     elif ch == 'catalogs':
         J = len(w['cats'])
@@ -167,6 +197,13 @@ def run_grid(test, world, obs_events, seed, nsim, env=None, objs=None):
         return be.negative_binomial_number_test(fc, cat, float(numpy.sum(fc.data)) * 2.5 + 1.0)
     if test == 'T':
         bw = dict(world, rates=world['bench'])
+        if world.get('bench_perm'):
+            perm = world['bench_perm']
+            reg = dict(world['region'])
+            key = 'origins' if reg['kind'] == 'cart' else 'quadkeys'
+            reg[key] = [world['region'][key][i] for i in perm]
+            bw['region'] = reg
+            bw['rates'] = [world['bench'][i] for i in perm]
         return pe.paired_t_test(fc, make_fc(bw, env), cat)
     return rngsim.run_gridded_test(test, fc, cat, nsim, seed, None)
 
@@ -213,8 +250,14 @@ def _execute(scn, ctx, store, rng):
         ctx.count('test:' + test)
         outs = []
         objs = {} if same_object else None
+        takes_seed = test in SIM_BASED_GRID or test in SIM_BASED_CAT
         for which, world in (('base', base), ('perm', perm)):
-            rng.seed(scn['rng_state'] + ti)
+            if which == 'base' or not takes_seed:
+                rng.seed(scn['rng_state'] + ti)
+            else:
+                # "with a fixed seed": the evaluation itself must re-seed; whatever other code drew in between is noise
+                numpy.random.rand(3)
+                ctx.count('fire:noise_between_base_and_permuted_run')
             rng.mark(budget=rngsim.HARD_CAP)
             if scn['kind'] == 'grid':
                 if test in ('BS', 'BCL', 'BRIER'):
